@@ -104,6 +104,10 @@ pub trait Property: Sync {
     fn extra(&self, _tier: Tier, _seed: u64, _ctx: &mut Ctx, _stats: &mut Stats) -> Vec<(Value, Failure)> {
         vec![]
     }
+    /// true for properties that state termination: a watchdog hit is then a VIOLATION (exit 1)
+    fn hang_is_violation(&self) -> bool {
+        false
+    }
     /// Sample rendering for evidence (default: the JSON encoding of the case)
     fn sample(&self, case: &Self::Case) -> Value {
         serde_json::to_value(case).unwrap_or(Value::Null)
@@ -256,19 +260,20 @@ pub fn scratch_dir(tag: &str) -> PathBuf {
 
 pub struct WatchSlot {
     pub prop: String,
+    pub violation: bool,
     pub current: std::sync::Mutex<Option<(Instant, String)>>,
 }
 
 static WATCH: std::sync::Mutex<Vec<std::sync::Arc<WatchSlot>>> = std::sync::Mutex::new(Vec::new());
 
-pub fn watch_register(prop: &str) -> std::sync::Arc<WatchSlot> {
-    let s = std::sync::Arc::new(WatchSlot { prop: prop.to_string(), current: std::sync::Mutex::new(None) });
+pub fn watch_register(prop: &str, violation: bool) -> std::sync::Arc<WatchSlot> {
+    let s = std::sync::Arc::new(WatchSlot { prop: prop.to_string(), violation, current: std::sync::Mutex::new(None) });
     WATCH.lock().unwrap().push(s.clone());
     s
 }
 
 pub fn case_timeout_s() -> u64 {
-    std::env::var("VERIF_CASE_TIMEOUT").ok().and_then(|x| x.parse().ok()).unwrap_or(60)
+    std::env::var("VERIF_CASE_TIMEOUT").ok().and_then(|x| x.parse().ok()).unwrap_or(120)
 }
 
 pub fn start_watchdog() {
@@ -287,6 +292,10 @@ pub fn start_watchdog() {
                         let v: Value = serde_json::from_str(&case).unwrap_or(Value::Null);
                         write_json(&path, &json!({"property": s.prop, "clause": "watchdog", "detail": format!("case still running after {} s", limit), "case": v}));
                         println!("HANG property={} case running for more than {} s; case written to {}", s.prop, limit, path.display());
+                        if s.violation {
+                            println!("VIOLATION property={} replay={}", s.prop, path.display());
+                            std::process::exit(1);
+                        }
                         println!("INCONCLUSIVE: watchdog fired (exit 2)");
                         std::process::exit(2);
                     }
@@ -323,7 +332,7 @@ fn run_shard<P: Property>(p: &P, tier: Tier, seed: u64, shard: u32, cases: u32) 
     };
     let mut runner = TestRunner::new(cfg);
     let strat = p.strategy(tier);
-    let slot = watch_register(p.id());
+    let slot = watch_register(p.id(), p.hang_is_violation());
     let index = std::cell::Cell::new(0u64);
     let result = runner.run(&strat, |case| {
         let counting = first_fail.borrow().is_none();
